@@ -15,7 +15,7 @@ from ..engine import pattern as P
 from ..engine.facts import dotted, const, src, walk_func, enclosing_stmt
 from . import skeletons as sk
 from . import c04  # strict-emission (imported names precede the context) is registered for C07 there
-from .common import calls, stmt_nodes, param_names
+from .common import calls, stmt_nodes, param_names, pn, access_paths
 
 
 @rule("C07.single-gateway", min_instances=7)
